@@ -119,17 +119,20 @@ func ResolveSpec(p *load.Program, rel string) (*report.RuleResult, bool) {
 		{"", "Lib\\Foo", "Foo"}, {"function", "Lib\\fn", "Fn"}, {"const", "Lib\\CST", "Cst"},
 		{"", "Lib\\A", "Dup"}, {"function", "Lib\\fa", "Dup"}, {"const", "Lib\\CA", "Dup"},
 		{"", "Lib\\Types\\Number", "Integer"},
+		// the kind is the keyword as written in the source: `use CONST …`, `use Function …`
+		{"CONST", "Lib\\UP", "Up"}, {"Const", "Lib\\MiXed", "MiXed"}, {"Function", "Lib\\ufn", "UFn"}, {"FUNCTION", "Lib\\ffn", "FFn"},
 	}
 	specAliases := map[string]map[string]string{"": {}, "function": {}, "const": {}}
 	for _, im := range imports {
-		k := im.as
-		if im.typ != "const" {
+		k, t := im.as, strings.ToLower(im.typ)
+		if t != "const" {
 			k = strings.ToLower(k)
 		}
-		specAliases[im.typ][k] = im.to
+		specAliases[t][k] = im.to
 	}
 	var names []rsName
 	single := []string{"Foo", "foo", "FOO", "Fn", "fn", "FN", "Cst", "cst", "CST", "Dup", "dup", "DUP", "Integer", "integer", "Other", "other",
+		"Up", "up", "UP", "MiXed", "mixed", "MIXED", "UFn", "ufn", "FFn", "ffn",
 		"mixed", "never", "array", "callable", "boolean", "double", "resource", "numeric", "selfish", "nul", "truee", "Int8", "strin", "objects", "statics"}
 	for _, s := range append(append([]string{}, rsClassSpecial...), rsConstSpecial...) {
 		single = append(single, s, strings.ToUpper(s), strings.ToUpper(s[:1])+s[1:])
@@ -168,7 +171,7 @@ func ResolveSpec(p *load.Program, rel string) (*report.RuleResult, bool) {
 		for _, im := range imports {
 			if _, st, why := in.Call(addAlias, nsv, []interface{}{im.typ, im.to, im.as}); st != ceval.OK {
 				if st == ceval.Panic {
-					problems[typeKey[im.typ]] = append(problems[typeKey[im.typ]], fmt.Sprintf("AddAlias(%q, %q, %q) panics: %s", im.typ, im.to, im.as, why))
+					problems[typeKey[strings.ToLower(im.typ)]] = append(problems[typeKey[strings.ToLower(im.typ)]], fmt.Sprintf("AddAlias(%q, %q, %q) panics: %s", im.typ, im.to, im.as, why))
 					continue
 				}
 				undecided = "AddAlias: " + why
@@ -245,12 +248,13 @@ func ResolveSpec(p *load.Program, rel string) (*report.RuleResult, bool) {
 	return res, true
 }
 
-// Yield: the structural rule r did not recognise some shapes (its non-discharged obligations); what the code
-// computes there was decided by evaluation, so those obligations are discharged with that reason. Obligations
-// the structural rule discharged itself stay as they are.
+// Yield: the structural rule r did not recognise some shapes (its undecided obligations); what the code
+// computes there was decided by evaluation, so those obligations are discharged with that reason. What the
+// structural rule discharged or reported as violated stays as it is: a violation it can name is one the
+// family of the evaluation may not contain.
 func Yield(r *report.RuleResult, by string) {
 	for i := range r.Obls {
-		if r.Obls[i].Status != report.Discharged {
+		if r.Obls[i].Status == report.Undecided {
 			r.Obls[i].Detail = "the structural reading does not apply to this form (" + r.Obls[i].Detail + "); what the functions compute is decided by " + by
 			r.Obls[i].Status = report.Discharged
 		}
